@@ -459,7 +459,12 @@ func RunC10Crash(t *rapid.T, st *vfhelp.Stats, tr Traits, open Opener, cfg Crash
 		} else if !cfg.Exhaustive && torn != nil && len(torn.Data) > 1 && tornBudget > 0 {
 			// quick tier: a few torn-tail variants per workload
 			tornBudget--
-			variants = append(variants, rapid.IntRange(1, len(torn.Data)-1).Draw(t, "tornlen"))
+			if tornBudget == 3 {
+				// (the whole unsynced tail survived: a complete record that was never fsynced)
+				variants = append(variants, len(torn.Data))
+			} else {
+				variants = append(variants, rapid.IntRange(1, len(torn.Data)-1).Draw(t, "tornlen"))
+			}
 		}
 		for vi, tornLen := range variants {
 			if vi > 0 {
